@@ -186,6 +186,28 @@ def install_stage_hooks():
             continue
         real = getattr(fn, "__verif_wrapped__", None)
         setattr(mod, name, _wrap_stage(f"{modname.split('.')[-1]}.{name}", fn))
+    # formatting.outside_strings(func, source) (repository fix 3d0f9c0) runs a text-level layout function on a copy of the source in which string literals are
+    # placeholders. The stage a user sees is the whole call; what the inner function sees is not source code, so inner stage events are suppressed meanwhile.
+    fmt = importlib.import_module("pyrefact.formatting")
+    real_outside = getattr(fmt, "outside_strings", None)
+    if real_outside is not None:
+        @functools.wraps(real_outside)
+        def outside_strings(func, source, *args, **kwargs):
+            name = getattr(func, "__name__", "")
+            inner = getattr(func, "__verif_wrapped__", func)
+            qual = {"<lambda>": "expandtabs", "format_str": "rmspace.format_str", "_limit_blank_lines": "fixes._limit_blank_lines"}.get(getattr(inner, "__name__", name), f"outside_strings[{name}]")
+            REC.bump("stage")
+            REC.masked = getattr(REC, "masked", 0) + 1
+            try:
+                res = real_outside(func, source, *args, **kwargs)
+            finally:
+                REC.masked -= 1
+            # (the blank-line limiter is an inner step of fixes.fix_too_many_blank_lines, which is a stage of its own with a validity guard around this call)
+            if isinstance(source, str) and isinstance(res, str) and not REC.masked and qual != "fixes._limit_blank_lines":
+                REC.stages.append({"stage": qual, "in": source, "out": res, "in_rule": list(REC.stack), "kwargs": {}})
+            return res
+
+        fmt.outside_strings = outside_strings
     proc = M["processing"]
     fn = proc.minimize_whitespace_line_differences
 
@@ -205,7 +227,7 @@ def _wrap_stage(qual, fn):
     def wrapper(source, *args, **kwargs):
         REC.bump("stage")
         res = fn(source, *args, **kwargs)
-        if isinstance(source, str) and isinstance(res, str):
+        if isinstance(source, str) and isinstance(res, str) and not getattr(REC, "masked", 0):
             REC.stages.append({"stage": qual, "in": source, "out": res, "in_rule": list(REC.stack),
                                "kwargs": {k: v for k, v in kwargs.items() if isinstance(v, (int, str))}})
         return res
